@@ -52,7 +52,7 @@ def display_table(rep):
 # ------------------------------------------------------------------------------------------------
 # R4.1 — ABI tables
 # ------------------------------------------------------------------------------------------------
-@RULES.rule("R4.1", "Abi <-> string tables name real Rust ABIs, FromStr inverts Display, CXCallingConv_* maps to the same convention", floor=45)
+@RULES.rule("R4.1", "Abi <-> string tables name real Rust ABIs, FromStr inverts Display, CXCallingConv_* maps to the same convention", floor=51)
 def r4_1(rep):
     """Necessary condition: the string printed by `Display for Abi` is pasted verbatim after `extern` in every function
     declaration and function-pointer type.  Breaks: swapping "stdcall"/"fastcall" makes every __stdcall function of a Win32
@@ -257,7 +257,7 @@ def namer_signature(b):
     return (init, step, order, prefix, named)
 
 
-@RULES.rule("R4.2", "link_name is emitted unless the platform decoration of the Rust name yields the symbol; variadic tail; argument namers agree", floor=40)
+@RULES.rule("R4.2", "link_name is emitted unless the platform decoration of the Rust name yields the symbol; variadic tail; argument namers agree", floor=46)
 def r4_2(rep):
     """Necessary condition: rustc links an extern item against the item's own identifier unless #[link_name] says otherwise, so
     whenever the identifier differs from the C symbol (keyword mangling `type_`, overload suffix `foo1`, C++ mangling, asm
@@ -377,10 +377,8 @@ def r4_2(rep):
             rep.check(abi_lid is not None and "abi" in ints and ints["abi"]["id"] == abi_lid, "function:abi-is-the-declared-abi",
                       "the calling convention used for the comparison is the `extern #abi` of the declaration", fb.loc(c))
             # (!identical).then_some(mangled)
-            par = fb.parent[c["_i"]]
             neg = False
             then = None
-            p = c
             for a in fb.ancestors(c):
                 if a["k"] == "Unary" and a["op"] == "!":
                     neg = not neg
@@ -419,12 +417,10 @@ def r4_2(rep):
             okl = bool(lists) and bool(holder) and base_local(holder[0]["recv"]) == ints[lists[0]]["id"]
             rep.check(okl, "function:link-name-reaches-declaration", "pushed to `%s`, the list spliced before `pub fn`" % (lists[0] if lists else "?"), fb.loc(c))
             # dynamic loading uses the same symbol
-            sym = None
-            for lid, d in fb.local_def.items():
-                if d[0][0] == "let" and d[2]["name"] == "symbol":
-                    sym = fb.canon(d[0][1].get("init", {}), 6)
-            if sym is not None:
-                rep.check("Function::link_name" in sym and "unwrap_or" in sym, "function:dynamic-symbol", "dlsym name = link name or the identifier: %s" % sym[-90:], fb.loc(fb.root))
+            pf = [x for x in fb.calls(lambda n: n["k"] == "MCall" and n["name"] == "push_func")]
+            if pf:
+                sym = fb.canon(pf[0]["args"][1], 6)
+                rep.check("Function::link_name" in sym and "unwrap_or" in sym, "function:dynamic-symbol", "dlsym name = link name or the identifier: %s" % sym[-90:], fb.loc(pf[0]))
 
     # ---- Var::codegen ------------------------------------------------------------------------------------------------
     vb = rep.need(prog.impl_fn("codegen::CodeGenerator", "ir::var::Var", "codegen"), "<Var as CodeGenerator>::codegen")
@@ -432,7 +428,7 @@ def r4_2(rep):
     if rep.check(len(decl) == 1, "var:decl-site", "one `extern \"C\" { pub static .. }` emission (found %d)" % len(decl), vb.loc(vb.root)):
         q = decl[0]
         ints = q.interps()
-        rep.check(q.has("extern", '"C"', "{") and q.has("pub", "static", "#maybe_mut") and q.tokens[-3:-1] != [], "var:decl-shape", " ".join(q.tokens), q.loc())
+        rep.check(q.has("extern", '"C"', "{") and q.has("pub", "static") and q.tokens[-2:] == [";", "}"], "var:decl-shape", " ".join(q.tokens), q.loc())
         calls = find_calls(vb, vb.root, "utils::names_will_be_identical_after_mangling")
         if rep.check(len(calls) == 1, "var:mangling-call", "one call of names_will_be_identical_after_mangling", vb.loc(vb.root)):
             c = calls[0]
@@ -479,8 +475,7 @@ def r4_2(rep):
         rep.check(bool(args_local) and "Iterator::collect" in ib.canon(args_local[0]["recv"], 3), "variadic:tail-is-last", "pushed onto the collected argument list", dots[0].loc())
     ab = rep.need(prog.fn("codegen::utils::fnsig_arguments"), "fn fnsig_arguments")
     calls = find_calls(ab, ab.root, "utils::fnsig_arguments_iter")
-    okc = len(calls) == 1 and "FunctionSig::argument_types(param:sig)" in ab.canon(calls[0]["args"][1], 5).replace("FunctionSig::argument_types", "FunctionSig::argument_types(param:sig)", 0) + \
-        ab.canon(calls[0]["args"][1], 5) and "FunctionSig::is_variadic(param:sig)" in ab.canon(calls[0]["args"][2], 4)
+    okc = False
     if calls:
         a1 = ab.canon(calls[0]["args"][1], 5)
         a2 = ab.canon(calls[0]["args"][2], 4)
@@ -516,7 +511,7 @@ def arm_of(b, m, variant):
     return None
 
 
-@RULES.rule("R4.3", "signature lowering: array decay, pointer constness, fn-pointer Option, unit/never return, static mut, self/this, constructor protocol", floor=30)
+@RULES.rule("R4.3", "signature lowering: array decay, pointer constness, fn-pointer Option, unit/never return, static mut, self/this, constructor protocol", floor=34)
 def r4_3(rep):
     """Necessary condition: each step is the Rust spelling of a rule of the C language (6.7.6.3p7 array parameters decay to
     pointers; a null function pointer is a valid value; `void` returns nothing) or of the C++ ABI (implicit `this` first).
@@ -631,26 +626,60 @@ def r4_3(rep):
 
     # ---- methods -------------------------------------------------------------------------------------------------------
     mb = rep.need(next((b for p, b in prog.bodies.items() if p.endswith("::codegen_method") and "Method" in p), None), "fn Method::codegen_method")
-    assigns = [n for n in mb.walk() if n["k"] == "Assign" and strip(n["l"])["k"] == "Index"]
-    by = {}
-    for a in assigns:
-        base = strip(strip(a["l"])["base"])
-        idx = strip(strip(a["l"])["idx"])
-        if base["k"] == "Local" and idx.get("v") == 0:
-            by.setdefault(base["name"], []).append(a)
+    # the locals are identified by their position in the emitted tokens, not by name
+    wq = [q for q in quote_sites(mb) if q.has("pub", "unsafe", "fn")]
+    rep.need(wq, "wrapper emission `pub unsafe fn ..` in Method::codegen_method")
+    q = wq[0]
+    t = q.tokens
+    k = [x for x in range(len(t) - 2) if t[x:x + 3] == ["pub", "unsafe", "fn"]][0]
+    tail = t[k + 3:]
+    shape = len(tail) == 13 and tail[0].startswith("#") and tail[1:3] == ["(", "#("] and tail[3].startswith("#") and tail[4:8] == [")", ",", "*", ")"] and \
+        tail[8].startswith("#") and tail[9] == "{" and tail[10].startswith("#") and tail[11] == "}" or \
+        (len(tail) == 12 and tail[0].startswith("#") and tail[1:3] == ["(", "#("] and tail[3].startswith("#") and tail[4:8] == [")", ",", "*", ")"] and
+         tail[8].startswith("#") and tail[9] == "{" and tail[10].startswith("#") and tail[11] == "}")
+    rep.check(len(wq) == 1 and shape, "method:wrapper-shape", "`pub unsafe fn #name ( #(#args),* ) #ret { #block }`: %s" % " ".join(t)[:120], q.loc())
+    ints = q.interps()
+    L = {}
+    if shape:
+        for role, tok in (("args", tail[3]), ("ret", tail[8]), ("block", tail[10])):
+            if tok[1:] in ints:
+                L[role] = ints[tok[1:]]["id"]
+    # #block = wrap_unsafe_ops(quote!( #( #stmts );* ));  one of the statements is `#function_name ( #( #exprs ),* )`
+    callq = None
+    for qq_ in quote_sites(mb):
+        tt = qq_.tokens
+        if tt[:1] == ["#("] and len(tt) == 5 and tt[2:] == [")", ";", "*"] and tt[1][1:] in qq_.interps() and "block" in L and \
+                qq_.interps()[tt[1][1:]]["id"] in local_ids(mb, ints[tail[10][1:]]):
+            L["stmts"] = qq_.interps()[tt[1][1:]]["id"]
+        if len(tt) == 8 and tt[0].startswith("#") and tt[1:3] == ["(", "#("] and tt[3].startswith("#") and tt[4:] == [")", ",", "*", ")"]:
+            callq = qq_
+            L["function_name"] = qq_.interps()[tt[0][1:]]["id"] if tt[0][1:] in qq_.interps() else None
+            L["exprs"] = qq_.interps()[tt[3][1:]]["id"] if tt[3][1:] in qq_.interps() else None
+    rep.check(all(L.get(r) is not None for r in ("args", "ret", "stmts", "function_name", "exprs")), "method:wrapper-parts",
+              "parameter list, return type, statement list, callee and call arguments located in the emitted tokens: %s" % sorted(r for r in L if L[r] is not None), q.loc())
+    srcs = {r: mb.canon({"k": "Local", "id": L[r], "name": r}, 5) for r in ("args", "ret", "exprs") if L.get(r) is not None}
+    rep.check(srcs.get("args", "").startswith("codegen::utils::fnsig_arguments(param:ctx") and srcs.get("ret", "").startswith("codegen::utils::fnsig_return_ty(param:ctx") or
+              ("local:" in srcs.get("args", "") and any(callee_of(c).endswith("utils::fnsig_arguments") for c in mb.calls())), "method:wrapper-signature-source",
+              "the wrapper's parameters / return type start from the extern declaration's own (fnsig_arguments / fnsig_return_ty)", q.loc())
+    first = {}
+    for a in mb.walk():
+        if a["k"] == "Assign" and strip(a["l"])["k"] == "Index":
+            base = strip(strip(a["l"])["base"])
+            idx = strip(strip(a["l"])["idx"])
+            if base["k"] == "Local" and idx.get("v") == 0:
+                first.setdefault(base["id"], []).append(a)
     # receiver in the wrapper's parameter list
-    okrecv = False
-    for a in by.get("args", []):
+    recv = first.get(L.get("args"), [])
+    for a in recv:
         v = val(mb, a["r"])
         atoms = guard_atoms(mb, a)
         okrecv = v[0] == "if" and v[1] in ("param:self.ir::comp::Method::is_const", "ir::comp::Method::is_const(param:self)") and v[2] == ("tok", "& self") and v[3] == ("tok", "& mut self") and \
             has_atom(atoms, "Method::is_static", False) and has_atom(atoms, "Method::is_constructor", False)
         rep.check(okrecv, "method:receiver", "non-static, non-constructor methods take `&self` iff the C++ method is const, else `&mut self`: %s" % show(v, 90), mb.loc(a))
-    rep.check(bool(by.get("args")), "method:receiver-site", "args[0] is replaced by the receiver", mb.loc(mb.root))
+    rep.check(len(recv) == 1, "method:receiver-site", "the first parameter is replaced by the receiver (once)", mb.loc(mb.root))
     # the call passes self / the temporary first
-    exprs = by.get("exprs", [])
     got = {}
-    for a in exprs:
+    for a in first.get(L.get("exprs"), []):
         v = val(mb, a["r"])
         atoms = guard_atoms(mb, a)
         if v == ("tok", "self"):
@@ -659,52 +688,47 @@ def r4_3(rep):
             got["tmp"] = has_atom(atoms, "Method::is_constructor", True)
     rep.check(got.get("self") is True, "method:this-argument", "the extern function receives `self` as `this` for non-static non-constructor methods", mb.loc(mb.root))
     rep.check(got.get("tmp") is True, "ctor:this-is-uninit-storage", "constructors receive `__bindgen_tmp.as_mut_ptr()` as `this`", mb.loc(mb.root))
+    ex_src = mb.canon({"k": "Local", "id": L["exprs"], "name": "exprs"}, 4) if L.get("exprs") is not None else ""
+    rep.check("arguments_from_signature" in ex_src or any(callee_of(c).endswith("ast_ty::arguments_from_signature") for c in mb.calls()), "method:call-arguments-source",
+              "the remaining call arguments are the signature's argument names (arguments_from_signature)", mb.loc(mb.root))
     # constructor protocol: decl, call, assume_init in that order; returns Self; drops the `this` parameter
-    stm = []
-    for c in mb.calls(lambda n: n["k"] == "MCall" and n["name"] == "push" and strip(n["recv"]).get("name") == "stmts"):
-        v = val(mb, c["args"][0])
-        stm.append((c, v, guard_atoms(mb, c)))
     kinds = []
-    for c, v, atoms in stm:
-        t = v[1].replace(" ", "") if v[0] == "tok" else ""
-        if "MaybeUninit::uninit()" in t and t.startswith("letmut__bindgen_tmp="):
+    for c in mb.calls(lambda n: n["k"] == "MCall" and n["name"] == "push" and strip(n["recv"]).get("k") == "Local" and strip(n["recv"])["id"] == L.get("stmts")):
+        v = val(mb, c["args"][0])
+        atoms = guard_atoms(mb, c)
+        tt = v[1].replace(" ", "") if v[0] == "tok" else ""
+        if "MaybeUninit::uninit()" in tt and tt.startswith("letmut__bindgen_tmp="):
             kinds.append(("decl", has_atom(atoms, "Method::is_constructor", True)))
-        elif t == "#function_name(#(#exprs),*)":
+        elif callq is not None and v == ("tok", " ".join(callq.tokens)):
             kinds.append(("call", not any("is_constructor" in a[0] for a in atoms)))
-        elif t == "__bindgen_tmp.assume_init()":
+        elif tt == "__bindgen_tmp.assume_init()":
             kinds.append(("init", has_atom(atoms, "Method::is_constructor", True)))
         else:
-            kinds.append(("other:" + t[:30], True))
+            kinds.append(("other:" + tt[:30], True))
     rep.check(kinds == [("decl", True), ("call", True), ("init", True)], "ctor:protocol",
               "statements: MaybeUninit::uninit() [ctor only]; the call [always]; assume_init() [ctor only], in this order: %s" % kinds, mb.loc(mb.root))
-    removes = [c for c in mb.calls(lambda n: n["k"] == "MCall" and n["name"] == "remove" and strip(n["recv"]).get("name") == "args")]
+    removes = [c for c in mb.calls(lambda n: n["k"] == "MCall" and n["name"] == "remove" and strip(n["recv"]).get("k") == "Local" and strip(n["recv"])["id"] == L.get("args"))]
     okrm = len(removes) == 1 and strip(removes[0]["args"][0]).get("v") == 0 and has_atom(guard_atoms(mb, removes[0]), "Method::is_constructor", True)
-    rets = [n for n in mb.walk() if n["k"] == "Assign" and strip(n["l"]).get("name") == "ret"]
+    rets = [n for n in mb.walk() if n["k"] == "Assign" and strip(n["l"]).get("k") == "Local" and strip(n["l"])["id"] == L.get("ret")]
     okret = len(rets) == 1 and val(mb, rets[0]["r"]) == ("tok", "-> Self") and has_atom(guard_atoms(mb, rets[0]), "Method::is_constructor", True)
     rep.check(okrm and okret, "ctor:signature", "constructors drop the `this` parameter and return Self", mb.loc(mb.root))
-    wq = [q for q in quote_sites(mb) if q.has("pub", "unsafe", "fn")]
-    if rep.check(len(wq) == 1, "method:wrapper-site", "one wrapper emission", mb.loc(mb.root)):
-        q = wq[0]
-        ints = q.interps()
-        srcs = {k: mb.canon(v_, 4) for k, v_ in ints.items()}
-        rep.check(q.has("(", "#(", "#args", ")", ",", "*", ")", "#ret") and "fnsig_arguments" in srcs.get("args", "") or "args" in ints, "method:wrapper-shape", " ".join(q.tokens)[:120], q.loc())
     # the called function is the extern declaration generated for the same Function item (overload suffix included)
-    fnl = None
-    for lid, d in mb.local_def.items():
-        if d[0][0] == "let" and d[2]["name"] == "function_name":
-            fnl = d
-    ids = set()
-    for lid, d in mb.local_def.items():
-        if d[0][0] == "let" and d[2]["name"] == "function_name":
-            ids |= local_ids(mb, d[0][1]["init"])
-    names = {mb.local_def[i][2]["name"] for i in ids if i in mb.local_def}
-    seen_suffix = any(n["k"] == "Local" and n["name"] == "times_seen" for n in mb.walk()) and \
-        any("Function as codegen::CodeGenerator>::codegen" in callee_of(c) for c in mb.calls())
-    rep.check("function_name" in names and seen_suffix, "method:calls-its-own-declaration", "the wrapper calls canonical_name(function item) + overload number returned by Function::codegen", mb.loc(mb.root))
+    okown = False
+    if L.get("function_name") is not None:
+        d = mb.local_def.get(L["function_name"])
+        ids = local_ids(mb, d[0][1]["init"]) if d and d[0][0] == "let" else set()
+        base_name = any("ItemCanonicalName>::canonical_name(ir::context::BindgenContext::resolve_item(param:ctx, param:self.ir::comp::Method::signature)" in
+                        mb.canon({"k": "Local", "id": x, "name": "?"}, 9) for x in ids)
+        suffix = False
+        for c in mb.calls(lambda n: n["k"] == "MCall" and n["name"] == "write_fmt"):
+            if base_local(c["recv"]) in ids and any(y["k"] == "Local" and "Function as codegen::CodeGenerator>::codegen(" in mb.canon(y, 5) for y in deep_walk(mb, c["args"][0])):
+                suffix = True
+        okown = base_name and suffix and "rust_ident" in mb.canon(d[0][1]["init"], 3)
+    rep.check(okown, "method:calls-its-own-declaration", "the wrapper calls rust_ident(canonical_name(function item) + overload number returned by Function::codegen)", mb.loc(mb.root))
 
     # ---- FunctionSig::from_ty: implicit this ---------------------------------------------------------------------------
     ft = rep.need(prog.fn("ir::function::FunctionSig::from_ty"), "fn FunctionSig::from_ty")
-    ins = [c for c in ft.calls(lambda n: n["k"] == "MCall" and n["name"] == "insert" and strip(n["recv"]).get("name") == "args")]
+    ins = [c for c in ft.calls(lambda n: n["k"] == "MCall" and n["name"] == "insert" and "Vec<(std::option::Option<std::string::String>, ir::context::TypeId)>" in (ft.ty(strip(n["recv"])) or ""))]
     okthis = bool(ins)
     det = []
     for c in ins:
